@@ -245,6 +245,22 @@ def check_builders(facts, tr, rep, crate, rule):
                     for (i, j, node) in ret_assigns(tr, b):
                         for lf in leaves(node):
                             lf = peel(lf)
+                            if lf[0] == "call" and tr.local_sync_callee(lf) is not None and \
+                                    tr.local_sync_callee(lf).local_ty(0).get("def") == rt.get("def") and _self_adt(tr.local_sync_callee(lf)) is None:
+                                # the value is built by a local constructor function: look through it with its
+                                # parameters bound to this call's arguments
+                                hb = tr.local_sync_callee(lf)
+                                with tr.bound(hb, lf):
+                                    for r in tr.helper_returns(hb):
+                                        for lf2 in leaves(r):
+                                            lf2 = peel(lf2)
+                                            if lf2[0] != "agg":
+                                                continue
+                                            b2, rv = tr.agg_of(lf2)
+                                            if rv.get("def") != rt.get("def"):
+                                                continue
+                                            _check_build_agg(tr, rep, rule, b, b2, rv, (lf2[3], lf2[4]), common, ctypes, self_fields)
+                                continue
                             if lf[0] == "call":
                                 # a chain of setter calls on the other builder type
                                 cc = tr.call_of(lf)
